@@ -948,4 +948,129 @@ theorem paretoFlags_total (J : List JobRec) (hj : JobRec) (m : Nat) (hm : 2 ≤ 
   · simp only [paretoFlags, hlen, if_false, hcells, hv]
   · simp [spread_length]
 
+/-! ### a re-used evaluator: the arity is inherited (`num_objective = some m` from the start) -/
+
+structure StartedM (m : Nat) (J : List JobRec) (st : DumpState) (t : Table) : Prop where
+  started : st.started = true
+  pend : st.pending = []
+  num : st.numObjective = some m
+  hdr : ∃ hj ∈ J, (firstSuccess J = some hj ∨ isStr hj.objective = true) ∧
+        st.columns = some (headerOf (some m) hj) ∧
+        t = ⟨some (headerOf (some m) hj), J.map (renderRow (headerOf (some m) hj) (some m))⟩
+
+def InvM (m : Nat) (J : List JobRec) (st : DumpState) (t : Table) : Prop :=
+  (st = ⟨false, none, some m, J⟩ ∧ t = Table.empty ∧ firstSuccess J = none) ∨ StartedM m J st t
+
+theorem step_invM (m : Nat) (J b : List JobRec) (fl : Bool) (st : DumpState) (t : Table)
+    (hinv : InvM m J st t) (hsup : AllSupported (J ++ b)) :
+    InvM m (J ++ b) (dumpStep fl { st with pending := st.pending ++ b }).1
+      (t.add (dumpStep fl { st with pending := st.pending ++ b }).2) := by
+  rcases hinv with ⟨rfl, rfl, hns⟩ | hst
+  · show InvM m (J ++ b) (dumpStep fl ⟨false, none, some m, J ++ b⟩).1
+      (Table.empty.add (dumpStep fl ⟨false, none, some m, J ++ b⟩).2)
+    by_cases hP : J ++ b = []
+    · rw [hP, dumpStep_nil fl _ rfl, Table.add_nothing]
+      exact Or.inl ⟨rfl, rfl, rfl⟩
+    · rw [dumpStep_fresh fl _ rfl hP]
+      simp only []
+      have hn : inferNumObjective (some m) (J ++ b) = some m := rfl
+      rw [hn]
+      cases fl with
+      | false =>
+        rw [chooseColumns_noflush none _ _ hsup]
+        cases hfs : firstSuccess (J ++ b) with
+        | none => exact Or.inl ⟨rfl, by simp [Table.add_nothing], hfs⟩
+        | some hj =>
+          refine Or.inr ⟨rfl, rfl, rfl, hj, (firstSuccess_mem hfs).1, Or.inl hfs, rfl, ?_⟩
+          simp [Table.add, Table.empty]
+      | true =>
+        rw [chooseColumns_flush]
+        cases hP2 : J ++ b with
+        | nil => exact absurd hP2 hP
+        | cons hd tl =>
+          simp only [List.head?_cons]
+          rw [← hP2]
+          have hmem : hd ∈ J ++ b := by rw [hP2]; simp
+          have hdisj : firstSuccess (J ++ b) = some hd ∨ isStr hd.objective = true := by
+            cases hstr : isStr hd.objective with
+            | true => exact Or.inr rfl
+            | false => left; rw [hP2]; simp [firstSuccess, List.find?, hstr]
+          refine Or.inr ⟨rfl, rfl, rfl, hd, hmem, hdisj, rfl, ?_⟩
+          simp [Table.add, Table.empty]
+  · obtain ⟨hs, hp, hnum, hj, hjmem, hjdisj, hcols, ht⟩ := hst
+    obtain ⟨s1, s2, s3, s4⟩ := st
+    simp only at hs hp hnum hcols
+    subst hs; subst hp; subst hnum; subst hcols
+    simp only [List.nil_append]
+    by_cases hb : b = []
+    · subst hb
+      rw [dumpStep_nil fl _ rfl, Table.add_nothing]
+      simp only [List.append_nil]
+      exact Or.inr ⟨rfl, rfl, rfl, hj, hjmem, hjdisj, rfl, ht⟩
+    · rw [dumpStep_started fl _ (headerOf (some m) hj) rfl rfl hb]
+      have hn : inferNumObjective (some m) b = some m := rfl
+      simp only [hn]
+      have hjdisj' : firstSuccess (J ++ b) = some hj ∨ isStr hj.objective = true := by
+        rcases hjdisj with h | h
+        · left; rw [firstSuccess_append, h]
+        · exact Or.inr h
+      refine Or.inr ⟨rfl, rfl, rfl, hj, by simp [hjmem], hjdisj', rfl, ?_⟩
+      rw [ht]
+      simp [Table.add]
+
+theorem run_invM (m : Nat) :
+    ∀ (ops : List (List JobRec × Bool)) (J : List JobRec) (st : DumpState) (t : Table),
+      InvM m J st t → AllSupported (J ++ allJobs ops) →
+      InvM m (J ++ allJobs ops) (runOps st t ops).1 (runOps st t ops).2
+  | [], J, st, t, hinv, _ => by simpa [allJobs, runOps, runOpsWith] using hinv
+  | (b, fl) :: rest, J, st, t, hinv, hsup => by
+    rw [runOps_cons, allJobs_cons, ← List.append_assoc]
+    rw [allJobs_cons, ← List.append_assoc] at hsup
+    apply run_invM m rest (J ++ b) _ _ _ hsup
+    apply step_invM m J b fl st t hinv
+    intro j hj; exact hsup j (by simp only [List.mem_append] at hj ⊢; exact Or.inl hj)
+
+/-- final flush of a `Search` whose evaluator inherited `num_objective = m` -/
+theorem final_flushM (m : Nat) (ops : List (List JobRec × Bool)) (hsup : AllSupported (allJobs ops)) :
+    (runOps ⟨false, none, some m, []⟩ Table.empty (ops ++ [([], true)])).1.pending = [] ∧
+    ((allJobs ops = [] ∧
+        (runOps ⟨false, none, some m, []⟩ Table.empty (ops ++ [([], true)])).2 = Table.empty) ∨
+     ∃ hj ∈ allJobs ops,
+       (firstSuccess (allJobs ops) = some hj ∨ isStr hj.objective = true) ∧
+       (runOps ⟨false, none, some m, []⟩ Table.empty (ops ++ [([], true)])).2 =
+         ⟨some (headerOf (some m) hj), (allJobs ops).map (renderRow (headerOf (some m) hj) (some m))⟩) := by
+  have h0 : InvM m [] ⟨false, none, some m, []⟩ Table.empty := Or.inl ⟨rfl, rfl, rfl⟩
+  have h1 := run_invM m ops [] _ _ h0 (by simpa using hsup)
+  simp only [List.nil_append] at h1
+  rw [runOps_append, runOps_cons]
+  generalize (runOps ⟨false, none, some m, []⟩ Table.empty ops).1 = st at h1 ⊢
+  generalize (runOps ⟨false, none, some m, []⟩ Table.empty ops).2 = t at h1 ⊢
+  simp only [runOps, runOpsWith]
+  have h2 := step_invM m (allJobs ops) [] true st t h1 (by simpa using hsup)
+  simp only [List.append_nil] at h2 ⊢
+  by_cases hJ : allJobs ops = []
+  · rcases h1 with ⟨rfl, rfl, _⟩ | hst
+    · rw [hJ, dumpStep_nil true _ rfl, Table.add_nothing]
+      exact ⟨rfl, Or.inl ⟨rfl, rfl⟩⟩
+    · obtain ⟨hj, hjm, _⟩ := hst.hdr
+      rw [hJ] at hjm; simp at hjm
+  · rcases h2 with ⟨heq, _, _⟩ | hst
+    · exfalso
+      rcases h1 with ⟨rfl, rfl, _⟩ | hst1
+      · rw [dumpStep_fresh true _ rfl hJ, chooseColumns_flush] at heq
+        cases hh : allJobs ops with
+        | nil => exact hJ hh
+        | cons a l => rw [hh] at heq; simp at heq
+      · have := hst1.started
+        obtain ⟨s1, s2, s3, s4⟩ := st
+        simp only at this; subst this
+        have hp := hst1.pend
+        simp only at hp; subst hp
+        obtain ⟨hj, _, _, hc, _⟩ := hst1.hdr
+        simp only at hc; subst hc
+        rw [dumpStep_nil true _ rfl] at heq
+        simp at heq
+    · obtain ⟨hj, hjm, hd, _, ht⟩ := hst.hdr
+      exact ⟨hst.pend, Or.inr ⟨hj, hjm, hd, ht⟩⟩
+
 end DH.Dump
